@@ -272,6 +272,28 @@ class _Run(object):
         self.flags = flags
         self.flagstr = ''.join('1' if f else '0' for f in flags)
         self.sig_seen = set()
+        self.kept = []      # (obj, kind, want, case, id_enc, data, how): parsed results kept alive and re-read later
+
+    def recheck(self):
+        """Every kept result is read again after all the later parses: a record object must keep the
+        values of ITS record (no state shared between parsed records: class-level containers, caches)."""
+        ctx = self.ctx
+        for idx, (obj, kind, want, case, id_enc, data, how) in enumerate(self.kept):
+            ctx.case(('recheck', bytes(bytearray(data)), how))
+            ctx.count('stream:re-read-after-later-parses')
+            for k, v in want:
+                o = _attr(obj, k)
+                if o != v:
+                    same = [x for x in self.kept[idx + 1:] if x[1] == kind]
+                    same = same[:2] + same[-2:]          # the next ones and the last ones of the same class
+                    c = dict(case)
+                    c['later'] = [x[3]['spec'] for x in same]
+                    c['later_container'] = [x[6] for x in same]
+                    self.violate(self._signature(kind, k, id_enc) + ':changed-by-later-parse',
+                                 '%s.%s read %s right after parsing and reads %s after later records were parsed '
+                                 '(state shared between parsed records)' % (kind, k, v, o), c,
+                                 '%s=%s' % (k, v), '%s=%s' % (k, o))
+                    break
 
     def violate(self, sig, what, case, expected, observed):
         self.ctx.count('violations:' + sig)
@@ -369,12 +391,16 @@ class _Run(object):
                          'record type 0x%02x must be parsed as %s, got %s' % (data[3], kind, type(obj).__name__),
                          case, kind, type(obj).__name__)
             return
+        clean = True
         for k, v in want:
             o = _attr(obj, k)
             if o != v:
+                clean = False
                 self.violate(self._signature(kind, k, id_enc),
                              '%s.%s is %s, the encoded record says %s' % (kind, k, o, v), case,
                              '%s=%s' % (k, v), '%s=%s' % (k, o))
+        if clean and stream != 'replay' and (len(self.kept) < 600 or ctx.evaluations % 7 == 0) and len(self.kept) < 3000:
+            self.kept.append((obj, kind, want, case, id_enc, data, how))
 
 
 # ---------------------------------------------------------------------------------------------
@@ -447,6 +473,8 @@ def run(ctx):
     if big:
         samples += [g(rng)[0] for g in (gen_full, gen_compact, gen_event, gen_fru, gen_mc) for _ in range(6)]
     _truncations(run_, drv, samples)
+    run_.recheck()
+    ctx.extra['kept_results_re_read'] = len(run_.kept)
     ctx.extra['signatures_seen'] = sorted(run_.sig_seen)
 
 
@@ -523,6 +551,19 @@ def replay(ctx, v):
     print('  Spec.Sdr : %s %s' % (kind, fields))
     r2.one('replay', case['spec'], data, how, kind, fields, drv.ask('parse %s %s' % (r2.flagstr, hx)),
            drv.ask('parse 000000 %s' % hx))
+    if case.get('later') and real[0] == 'ok':
+        keep = []
+        for ln, hw in zip(case['later'], case.get('later_container') or ['list'] * len(case['later'])):
+            a2 = drv.ask(ln)
+            if a2.startswith('ok '):
+                keep.append(parse_real(list(lean.unhex(a2.split(' ', 3)[1])), hw))
+        print('  after parsing %d later record(s) the first result reads: %s' % (
+            len(keep), ' '.join('%s=%s' % (k, _attr(real[1], k)) for k, _ in _fields(fields))))
+        for k, want_v in _fields(fields):
+            if _attr(real[1], k) != want_v:
+                print('  VIOLATED: %s changed from %s to %s (state shared between parsed records)' % (
+                    k, want_v, _attr(real[1], k)))
+                return True
     for y in c2.violations:
         print('  VIOLATED: ' + y['what'])
     return v['signature'] in [y['signature'] for y in c2.violations]
